@@ -209,3 +209,22 @@ Definition mem_roundtrip (entries : list bytes) : list N * bytes * list mem_read
   (ns, vw_buf w,
    mem_read_all fuel fuel (rr_open vecr (mkVecR (dropN (BS P) stream) (takeN (BS P) stream)))).
 End WithParams.
+
+(* ---------- digests: the same function is evaluated by the kernel (vm_compute) and by the
+   extracted code, on the same command lists, to cross-check the extraction on every run ---------- *)
+Definition bytes_sum (b : bytes) : N :=
+  fold_left (fun a x => (a * 31 + b2n x) mod 4294967296) b 7.
+
+Definition queue_digest (nq : bytes * mq) : list N :=
+  [bytes_sum (fst nq); next_position (snd nq); lenN (q_metas (snd nq)); bytes_sum (q_buf (snd nq))].
+
+Definition fs_digest (fs : fsT) : list N :=
+  flat_map (fun ne => [bytes_sum (fst ne);
+                       match snd ne with FFile b => bytes_sum b | FDir => 1 | FOther => 2 end]) fs.
+
+Definition world_digest (w : world) : list N :=
+  lenN (wd_events w) :: fs_digest (wd_fs w) ++
+  match wd_log w with Some st => flat_map queue_digest (s_qs st) | None => [] end.
+
+Definition run_cmds (P : params) (cmds : list cmd) : list N :=
+  world_digest (fold_left (fun w c => fst (world_step P w c)) cmds world_init).
